@@ -220,14 +220,14 @@ def assembled_coll(arg, r):
     from paulie.common.pauli_string_collection import PauliStringCollection
     ss = impl_graph.strs(arg)
     ps = [assembled_string(s, r) for s in ss]
-    # the text of an assembled string must be the text asked for (C18); if it is not, classify what was asked for by text so that
-    # this stream judges the classifier only on its own account
-    ps = [p if str(p) == s else __import__("paulie.common.pauli_string_bitarray", fromlist=["PauliString"]).PauliString(pauli_str=s) for p, s in zip(ps, ss)]
+    # the objects are used as they come out of the recipes: the collection HOLDS the letters the recipe wrote (on a sound tree
+    # str(p) == s for every recipe); a string whose printed text, parity masks or hash lag behind its letters is exactly what
+    # this stream is for
     if r.random() < 0.3 and ss and len(set(map(len, ss))) == 1:
         c = PauliStringCollection([])
         for p in ps:
             c.append(p)
-        if [str(g) for g in c.get()] == list(dict.fromkeys(ss)) and len(set(ss)) == len(ss):
+        if len(c) == len(ss) and len(set(ss)) == len(ss):
             return c
     return PauliStringCollection(ps)
 
